@@ -980,21 +980,34 @@ func c03Kill(c *Ctx) {
 		}
 		deletes := map[string]bool{}
 		ranges := map[string]bool{}
-		eachInstr(g, func(_ *ssa.BasicBlock, _ int, ins ssa.Instruction) {
-			switch x := ins.(type) {
-			case *ssa.Call:
-				if callName(x) == "builtin.delete" {
-					if f := isFactMap(x.Call.Args[0]); f != "" {
-						deletes[f] = true
+		// the killer's work may be split over methods it calls on its own receiver (killCopies + killExpressions)
+		records := false // a function that also records facts is not a killer, whatever it calls
+		var scan func(h *ssa.Function, depth int)
+		scan = func(h *ssa.Function, depth int) {
+			eachInstr(h, func(_ *ssa.BasicBlock, _ int, ins ssa.Instruction) {
+				switch x := ins.(type) {
+				case *ssa.MapUpdate:
+					if isFactMap(x.Map) != "" {
+						records = true
+					}
+				case *ssa.Call:
+					if callName(x) == "builtin.delete" {
+						if f := isFactMap(x.Call.Args[0]); f != "" {
+							deletes[f] = true
+						}
+					}
+					if sf := staticFn(x); sf != nil && depth < 2 && sf != h && sf.Signature.Recv() != nil && len(h.Params) > 0 && len(x.Call.Args) > 0 && x.Call.Args[0] == ssa.Value(h.Params[0]) && sf.Signature.Results().Len() == 0 {
+						scan(sf, depth+1)
+					}
+				case *ssa.Range:
+					if f := isFactMap(x.X); f != "" {
+						ranges[f] = true
 					}
 				}
-			case *ssa.Range:
-				if f := isFactMap(x.X); f != "" {
-					ranges[f] = true
-				}
-			}
-		})
-		if deletes["constants"] && deletes["copies"] && deletes["expressions"] && ranges["copies"] && ranges["expressions"] {
+			})
+		}
+		scan(g, 0)
+		if !records && deletes["constants"] && deletes["copies"] && deletes["expressions"] && ranges["copies"] && ranges["expressions"] {
 			killer[g] = true
 		}
 	}
